@@ -141,7 +141,7 @@ def native_harness(d, harness_c, defs=(), san=False, name=None):
     flags = ['-O1', '-g', '-DSYM_NATIVE=1', '-D' + GUARD] + RELEASE_FLAGS + incflags(d) + ['-D' + x for x in defs]
     if san:
         flags += ['-fsanitize=address,undefined', '-fno-sanitize-recover=undefined']
-    sh(['gcc'] + flags + ['-rdynamic', '-o', out, harness_c, VERIF + '/harness/sym_native.c', lib, '-lm', '-lpthread', '-ldl'])
+    sh(['gcc'] + flags + ['-rdynamic', '-o', out, harness_c, VERIF + '/harness/sym_native.c', '-Wl,--whole-archive', lib, '-Wl,--no-whole-archive', '-lm', '-lpthread', '-ldl'])
     return out
 
 
